@@ -28,12 +28,13 @@ CONSTANTS Alphabet,    \* coordinate values explored
           Limit,       \* per-part limit of points (UINT16_MAX in production)
           Chunked,     \* TRUE: callers may offer fewer values than remain
           NoRangeLen,  \* longest sequence explored without a range
-          CodeDen      \* denominators of the fractions offered to Encode
+          CodeDen,     \* denominators of the fractions offered to Encode
+          Dims         \* 1: one dimension; 2: C++ apply of a second dimension onto the parts of the first
 
-VARIABLES data, lo, hi, ranged,   \* input
+VARIABLES data, data2, lo, hi, ranged,   \* input (data2: second dimension of the same length, or <<>>)
           pos, parts,             \* points consumed, list of parts so far
           obs
-vars == <<data, lo, hi, ranged, pos, parts, obs>>
+vars == <<data, data2, lo, hi, ranged, pos, parts, obs>>
 
 ---------------------------------------------------------------------------
 Min2(a, b) == IF a < b THEN a ELSE b
@@ -117,6 +118,25 @@ PartOK(p) ==
        /\ p.usr >= 2 /\ ~InR(data[e]) /\ InR(data[e - 1])
        /\ CodeNear(p.trim, CrossA(data[e], data[e - 1]), CrossB(data[e], data[e - 1]))
 
+(* Tier 1 with two dimensions: a point is visible when it is in range in    *)
+(* both.  Only the clauses about points are demanded (consumed once,        *)
+(* progress, visible points drawn in their own part, no other point drawn,  *)
+(* a cut/trimmed line end is not a visible point); where the 2-d line       *)
+(* crosses the boundary is not decided.                                     *)
+Vis2(i) == InR(data[i]) /\ InR(data2[i])
+PartOK2(p) ==
+  LET m == Min2(p.n, Limit) IN
+  /\ p.raw \in 0..m /\ p.usr \in 0..(m + 1)
+  /\ p.n >= 1 => p.raw >= 1
+  /\ p.s + p.usr <= Len(data)
+  /\ \A i \in Drawn(p) : Vis2(i) /\ i <= p.s + p.raw
+  /\ \A i \in (p.s + 1)..(p.s + p.raw) : Vis2(i) => i \in Drawn(p)
+  /\ (p.cut # 0 /\ p.usr > 0) => p.usr >= 2 /\ ~Vis2(p.s + 1)
+  /\ (p.trim # 0 /\ p.usr > 0) => p.usr >= 2 /\ ~Vis2(p.s + p.usr)
+NDrawn(p) == LET a == p.s + 1 + (IF p.cut # 0 THEN 1 ELSE 0)
+                 b == p.s + p.usr - (IF p.trim # 0 THEN 1 ELSE 0)
+             IN IF b < a THEN 0 ELSE b - a + 1
+
 RECURSIVE SumRaw(_)
 SumRaw(ps) == IF ps = <<>> THEN 0 ELSE ps[Len(ps)].raw + SumRaw(FirstN(ps, Len(ps) - 1))
 RECURSIVE SumUsr(_)
@@ -143,27 +163,29 @@ AddPart(out, pt) ==
   THEN [out EXCEPT ![Len(out)] = Joined(out[Len(out)], pt)]
   ELSE Append(out, pt)
 
-RECURSIVE ApplyOld(_, _, _, _, _)
-ApplyOld(old, rest, len, off, out) ==
+RECURSIVE ApplyOldD(_, _, _, _, _, _)
+ApplyOldD(dat, old, rest, len, off, out) ==
   LET tl(r) == IF r = <<>> THEN <<>> ELSE SubSeq(r, 2, Len(r)) IN
   IF old.usr = 0 \/ len = 0
   THEN LET pt   == [s |-> off, n |-> old.raw, raw |-> old.raw, usr |-> old.usr, cut |-> old.cut, trim |-> old.trim]
            len2 == IF len > old.raw THEN len - old.raw ELSE 0
            off2 == IF len > old.raw THEN off + old.raw ELSE off
            out2 == AddPart(out, pt)
-       IN IF rest = <<>> THEN out2 ELSE ApplyOld(rest[1], tl(rest), len2, off2, out2)
+       IN IF rest = <<>> THEN out2 ELSE ApplyOldD(dat, rest[1], tl(rest), len2, off2, out2)
   ELSE LET ousr == Min2(old.usr, len)
-           p0   == PartOf(SubSeq(data, off + 1, off + Min2(ousr, Limit)))
+           p0   == PartOf(SubSeq(dat, off + 1, off + Min2(ousr, Limit)))
            cut  == IF old.cut > p0.cut THEN old.cut ELSE p0.cut
        IN IF p0.raw < old.raw
           THEN LET pt == [s |-> off, n |-> ousr, raw |-> p0.raw, usr |-> p0.usr, cut |-> cut, trim |-> p0.trim]
                    o2 == [raw |-> old.raw - p0.raw, usr |-> ousr - p0.raw, cut |-> 0, trim |-> old.trim]
-               IN ApplyOld(o2, rest, len - p0.raw, off + p0.raw, AddPart(out, pt))
+               IN ApplyOldD(dat, o2, rest, len - p0.raw, off + p0.raw, AddPart(out, pt))
           ELSE LET raw  == Min2(old.raw, p0.raw)
                    trim == IF old.trim > p0.trim THEN old.trim ELSE p0.trim
                    pt   == [s |-> off, n |-> ousr, raw |-> raw, usr |-> p0.usr, cut |-> cut, trim |-> trim]
                    out2 == AddPart(out, pt)
-               IN IF rest = <<>> THEN out2 ELSE ApplyOld(rest[1], tl(rest), len - raw, off + raw, out2)
+               IN IF rest = <<>> THEN out2 ELSE ApplyOldD(dat, rest[1], tl(rest), len - raw, off + raw, out2)
+
+ApplyOld(old, rest, len, off, out) == ApplyOldD(data, old, rest, len, off, out)
 
 RECURSIVE Walk(_, _)
 Walk(p0, acc) ==
@@ -177,6 +199,11 @@ ApplyResult(mode) ==
   ELSE LET sp == SetParts(Len(data), 0) IN
        IF sp = <<>> THEN <<>> ELSE ApplyOld(sp[1], SubSeq(sp, 2, Len(sp)), Len(data), 0, <<>>)
 
+(* C++: the second dimension applied onto the parts of the first *)
+Apply2Result(mode) ==
+  LET ps == ApplyResult(mode) IN
+  IF ps = <<>> THEN <<>> ELSE ApplyOldD(data2, ps[1], SubSeq(ps, 2, Len(ps)), Len(data2), 0, <<>>)
+
 ---------------------------------------------------------------------------
 (* observation projection of a part / list *)
 Proj(p)   == [raw |-> p.raw, usr |-> p.usr, cut |-> p.cut, trim |-> p.trim]
@@ -189,7 +216,7 @@ NextPart(n, p) ==
   /\ parts' = Append(parts, [s |-> pos, n |-> n, raw |-> p.raw, usr |-> p.usr, cut |-> p.cut, trim |-> p.trim])
   /\ pos' = pos + p.raw
   /\ obs' = [a |-> "part", arg |-> [n |-> n], exp |-> Proj(p)]
-  /\ UNCHANGED <<data, lo, hi, ranged>>
+  /\ UNCHANGED <<data, data2, lo, hi, ranged>>
 
 Offered(n) == SubSeq(data, pos + 1, pos + Min2(n, Limit))
 
@@ -200,7 +227,7 @@ JoinLast(ret, j) ==
   /\ parts' = IF ret = "ok" THEN Append(FirstN(parts, Len(parts) - 2), j) ELSE parts
   /\ obs' = [a |-> "join", arg |-> [x |-> 0],
              exp |-> [ret |-> ret, to |-> IF ret = "ok" THEN Proj(j) ELSE Proj(parts[Len(parts) - 1])]]
-  /\ UNCHANGED <<data, lo, hi, ranged, pos>>
+  /\ UNCHANGED <<data, data2, lo, hi, ranged, pos>>
 
 DoJoin ==
   /\ Len(parts) >= 2
@@ -213,7 +240,13 @@ Apply(mode, ps) ==
   /\ parts' = ps
   /\ pos' = SumRaw(ps)
   /\ obs' = [a |-> "apply", arg |-> [mode |-> mode], exp |-> [parts |-> ProjL(ps)]]
-  /\ UNCHANGED <<data, lo, hi, ranged>>
+  /\ UNCHANGED <<data, data2, lo, hi, ranged>>
+
+Apply2(mode, ps, qs, np) ==   \* qs: parts of polyline::set on both dimensions, np: sizes of points() of the parts its iterator visits
+  /\ parts' = ps
+  /\ pos' = SumRaw(ps)
+  /\ obs' = [a |-> "apply2", arg |-> [mode |-> mode], exp |-> [parts |-> ProjL(ps), pparts |-> ProjL(qs), np |-> np]]
+  /\ UNCHANGED <<data, data2, lo, hi, ranged>>
 
 (* C++ polyline::set for one dimension mapped to x unchanged, then the walk *)
 (* over the parts: pts[i] = coordinates of part i's points(), ends[i] =     *)
@@ -239,7 +272,7 @@ Poly(ret, ps, pts, ends) ==
   /\ pos' = SumRaw(ps)
   /\ obs' = [a |-> "poly", arg |-> [x |-> 0],
              exp |-> [ret |-> ret, parts |-> ProjL(ps), pts |-> pts, ends |-> ends, full |-> 1]]
-  /\ UNCHANGED <<data, lo, hi, ranged>>
+  /\ UNCHANGED <<data, data2, lo, hi, ranged>>
 
 (* Tier 1 for the end points of a drawn line: a cut/trimmed end lies on the *)
 (* range boundary to the precision of one code of its segment              *)
@@ -259,25 +292,33 @@ EncodeNums(b) == IF b <= 16 THEN -1..(b + 1)
                  ELSE {-1, 0, 1, 2, 3, b \div 65536, b \div 65536 + 1, b \div 3, b \div 2, b - 2, b - 1, b, b + 1}
 Encode(a, b, ret, code) ==
   /\ obs' = [a |-> "encode", arg |-> [a |-> a, b |-> b], exp |-> [ret |-> ret, code |-> code]]
-  /\ UNCHANGED <<data, lo, hi, ranged, pos, parts>>
+  /\ UNCHANGED <<data, data2, lo, hi, ranged, pos, parts>>
 EncodeRet(a, b)  == IF a < 0 \/ a > b THEN "refused" ELSE "ok"
 EncodeCode(a, b) == IF a < 0 \/ a > b THEN 0 ELSE Code(a, b)
 
 ---------------------------------------------------------------------------
 Flag(b) == IF b THEN 1 ELSE 0
 InitObs == [a |-> "init",
-            arg |-> [data |-> data, lo |-> lo, hi |-> hi, ranged |-> Flag(ranged), lim |-> Limit],
+            arg |-> [data |-> data, data2 |-> data2, lo |-> lo, hi |-> hi, ranged |-> Flag(ranged), lim |-> Limit],
             exp |-> [x |-> 0]]
 
 Init ==
   /\ data \in UNION {[1..k -> Alphabet] : k \in 0..MaxLen}
+  /\ data2 \in IF Dims = 2 THEN [1..Len(data) -> Alphabet] ELSE {<<>>}
+  /\ Dims = 2 => Len(data) > 0
   /\ \E r \in Ranges : lo = r[1] /\ hi = r[2]
   /\ ranged \in BOOLEAN
   /\ ~ranged => Len(data) <= NoRangeLen /\ lo = (CHOOSE r \in Ranges : TRUE)[1] /\ hi = (CHOOSE r \in Ranges : TRUE)[2]
   /\ pos = 0 /\ parts = <<>>
   /\ obs = InitObs
 
-Next ==
+Next2 == \E mode \in {"fresh", "set"} :
+           /\ pos = 0 /\ parts = <<>>
+           /\ LET ps == Apply2Result(mode)
+                  qs == Apply2Result("set")        \* polyline::set always starts from set(length)
+              IN Apply2(mode, ps, qs, [i \in 1..Visited(qs) |-> NDrawn(qs[i])])
+
+Next1 ==
   \/ \E n \in (IF Chunked THEN 0..(Len(data) - pos) ELSE {Len(data) - pos}) :
         /\ n = 0 => parts = <<>>          \* offering nothing is explored once
         /\ NextPart(n, PartOf(Offered(n)))
@@ -288,6 +329,8 @@ Next ==
         Poly(IF SumUsr(ps) > 0 THEN "ok" ELSE "refused", ps, PolyPts(ps), PolyEnds(ps))
   \/ Len(data) = 0 /\ ranged /\ \E b \in CodeDen : \E a \in EncodeNums(b) : Encode(a, b, EncodeRet(a, b), EncodeCode(a, b))
 
+Next == IF Dims = 2 THEN Next2 ELSE Next1
+
 Spec == Init /\ [][Next]_vars
 
 ---------------------------------------------------------------------------
@@ -297,9 +340,9 @@ TypeOK ==
   /\ \A i \in 1..Len(parts) : parts[i].raw \in 0..Limit /\ parts[i].usr \in 0..Limit
                                /\ parts[i].cut \in 0..65535 /\ parts[i].trim \in 0..65535
 
-PartsOK    == \A i \in 1..Len(parts) : PartOK(parts[i])
+PartsOK    == \A i \in 1..Len(parts) : IF data2 = <<>> THEN PartOK(parts[i]) ELSE PartOK2(parts[i])
 Partition  == Contiguous(parts, pos)        \* raws add up to the points consumed
-Complete   == obs.a \in {"apply", "poly"} => pos = Len(data)
+Complete   == obs.a \in {"apply", "apply2", "poly"} => pos = Len(data)
 PolyOK     == obs.a = "poly" =>
                 /\ Len(obs.exp.pts) = Len(obs.exp.ends) /\ Len(obs.exp.pts) <= Len(parts)
                 /\ \A i \in 1..Len(parts) : parts[i].usr > 0 => i <= Len(obs.exp.pts)
